@@ -127,6 +127,23 @@ def compare(p, run, pred):
                 bad("C18", "Parallel returned %s and emitted outcome events %s" % (run["err"], outcome))
             elif len(done) != 1 or ev.index(done[0]) < ev.index(outcome[0]):
                 bad("C18", "ParallelDone not emitted exactly once after the outcome: %s" % ev)
+            # instrumented Parallel tasks: one outcome event matching what the function did, one TaskDone; skipped otherwise on nil
+            for it in p.items:
+                if it["kind"] != "task" or not it.get("instr"):
+                    continue
+                tid = "t%d" % it["k"]
+                outs = [e for e in ev if e.split(" ")[0] in ("TaskSuccess", "TaskError", "TaskPanic", "TaskErrorRecovered", "TaskPanicRecovered") and e.split(" ")[1] == tid]
+                dones = [e for e in ev if e == "TaskDone " + tid]
+                skipped = [e for e in ev if e.startswith("TaskSkipped " + tid + " ")]
+                if tid in calls:
+                    sc = scen.get(tid, "ok")
+                    want_ev = {"ok": "TaskSuccess", "err": "TaskError"}.get(sc, "TaskPanic")
+                    if len(outs) != 1 or not outs[0].startswith(want_ev + " "):
+                        bad("C18", "Parallel task %s (%s) emitted outcome events %s, expected exactly one %s" % (tid, sc, outs, want_ev))
+                    if len(dones) != 1:
+                        bad("C18", "Parallel task %s was invoked and emitted %d TaskDone events" % (tid, len(dones)))
+                elif run["err"] == "nil" and len(skipped) != 1:
+                    bad("C18", "Parallel task %s was not invoked in a directive returning nil and emitted %d TaskSkipped events" % (tid, len(skipped)))
     return hits
 
 
